@@ -23,6 +23,8 @@ func TestReplay(t *testing.T) {
 		key, msg = replayC13(t, f.Script)
 	case "TestC08WS":
 		key, msg = replayC08b(t, f.Script)
+	case "TestC06Stack":
+		key, msg = replayC06Stack(t, f.Script)
 	default:
 		t.Fatalf("no replay handler for %s", f.Test)
 	}
